@@ -872,6 +872,20 @@ func (sr *sessRun) conclude(class string) {
 	}
 	if len(sr.problems) > 0 {
 		obs += " PROBLEM:" + strings.ReplaceAll(strings.Join(sr.problems, ";"), " ", "_")
+		// a watchdog is a clause of the property, not only a disagreement with the model: a call
+		// that has its reply (or whose context ended) and does not return / a serve loop that does
+		// not get on — recorded with the schedule as the failing input (round E self-test M2)
+		for _, pr := range sr.problems {
+			if !strings.HasPrefix(pr, "WATCHDOG") {
+				continue
+			}
+			if strings.Contains(pr, "return") {
+				r.Fail("outcome", "call-does-not-return", sr.lines(), "a blocking call that has been handed its reply, whose context ended or whose transmission failed did not return within the watchdog: "+pr)
+			} else {
+				r.Fail("serve-continues", "no-progress", sr.lines(), "the serve loop or a call did not reach the next step of the schedule within the watchdog: "+pr)
+			}
+			break
+		}
 	}
 	line := "sess " + sr.reqField() + " " + common.Join(sr.trace, ",")
 	r.Line(line, obs)
